@@ -1199,7 +1199,7 @@ class RpcServer:
                 # client reads the header first, finds the error there and sends
                 # no input.
                 with contextlib.suppress(pa.ArrowInvalid, OSError, EOFError):
-                    _drain_stream(ValidatedReader(ipc.open_stream(transport.reader), self._ipc_validation))
+                    _drain_stream(ValidatedReader(ipc.open_stream(transport.reader), self._ipc_validation), shm)
             return
         finally:
             if status == "error":
@@ -1369,4 +1369,4 @@ class RpcServer:
 
         # Drain remaining input so transport is clean for next request
         with contextlib.suppress(pa.ArrowInvalid, OSError):
-            _drain_stream(input_reader)
+            _drain_stream(input_reader, shm)
